@@ -8,6 +8,8 @@ CONSTANTS
   MaxBatches = 2
   MaxOps = 3
   StaleFill = TRUE
+  FillOverwrite = FALSE
+  NoNegativeEntry = FALSE
   Gen = TRUE
 VIEW view
 INVARIANTS RYWPrint
